@@ -195,11 +195,13 @@ func saveState(lastMessages map[string]interface{}) {
 	mainname := viper.ConfigFileUsed()
 	tmpname := strings.Replace(mainname, ".yaml", ".tmp.yaml", 1)
 	bakname := mainname + ".bak"
+	verifC16Point("save.enter")
 	err := viper.WriteConfigAs(tmpname)
 	if err != nil {
 		log.Println("Could not store config file ", tmpname, ": ", err)
 		return
 	}
+	verifC16Point("save.afterTmp")
 
 	// Move old config file to backup and new file to standard config name.
 	err = os.Remove(bakname)
@@ -207,14 +209,17 @@ func saveState(lastMessages map[string]interface{}) {
 		log.Println("Could not remove backup file ", bakname, " even though it exists: ", err)
 		return
 	}
+	verifC16Point("save.afterRemoveBak")
 	err = os.Rename(mainname, bakname)
 	if err != nil && !os.IsNotExist(err) {
 		log.Println("Could not save backup file: ", err)
 		return
 	}
+	verifC16Point("save.afterRenameBak")
 	err = os.Rename(tmpname, mainname)
 	if err != nil {
 		log.Printf("Could not update dastard config file %s", mainname)
 	}
+	verifC16Point("save.afterRenameMain")
 
 }
